@@ -29,6 +29,12 @@ import c05
 import common
 from common import LeanDriver, run_check
 
+def obsprobes_mod():
+    import obsprobes
+
+    return obsprobes
+
+
 # ------------------------------------------------------------------ object graph extraction
 _LOCK_TYPES = tuple({type(__import__("threading").Lock()), type(__import__("threading").RLock())})
 
@@ -172,15 +178,79 @@ def snapshot(**roots):
     return {k: g.value(g.add(v, k)) for k, v in roots.items()}
 
 
+def public_state(obj):
+    """settings and contents of a detector / pipeline / processor as the PUBLIC interface shows them (what the property
+    talks about): private caches, renamed internals and helper objects do not enter"""
+    from pyxel.detectors import Detector
+    from pyxel.pipelines import DetectionPipeline, Processor
+
+    if isinstance(obj, Processor):
+        return {"detector": public_state(obj.detector), "pipeline": public_state(obj.pipeline),
+                "mode": mode_settings(obj.observation) if getattr(obj, "observation", None) is not None else None}
+    if isinstance(obj, Detector):
+        out = {"dict": obj.to_dict(), "memory": obsprobes_mod().det_memory(obj)}
+        try:
+            out["persistence"] = obj.persistence if obj.has_persistence() else None
+        except Exception:  # noqa: BLE001
+            out["persistence"] = "n/a"
+        return out
+    if isinstance(obj, DetectionPipeline):
+        out = {}
+        for gname in obj.model_group_names:
+            grp = getattr(obj, gname)
+            out[gname] = None if not grp else [
+                {"name": m.name, "enabled": m.enabled, "arguments": dict(m.arguments)} for m in grp.models]
+        return out
+    return obj
+
+
+DEEP_ONLY = {"n": 0}
+
+
+def caller_snapshot(**roots):
+    """digest per caller object of its public state (judged) — the identity walk over every attribute, private ones
+    included, is kept as a second digest: a difference there alone is counted, not judged"""
+    pub = snapshot(**{k: public_state(v) for k, v in roots.items()})
+    deep = snapshot(**roots)
+    return {k: (pub[k], deep[k]) for k in roots}
+
+
+def changed_objects(before, after, ck=None):
+    """names whose PUBLIC state differs; a private-only difference is only counted"""
+    out = [k for k in before if before[k][0] != after[k][0]]
+    if not out and ck is not None and any(before[k][1] != after[k][1] for k in before):
+        ck.count("private-state-differs-public-state-equal(not judged)")
+    return out
+
+
 def param_settings(pv):
     return {"key": pv.key, "values": pv.values, "enabled": pv.enabled, "boundaries": pv.boundaries,
             "logarithmic": pv.logarithmic}
 
 
+def public_props(obj):
+    """{name: value} of the public properties and public instance attributes of an object (None stays None)"""
+    if obj is None:
+        return None
+    out = {}
+    for klass in type(obj).__mro__:
+        for name, v in vars(klass).items():
+            if isinstance(v, property) and not name.startswith("_") and name not in out:
+                try:
+                    out[name] = getattr(obj, name)
+                except Exception as e:  # noqa: BLE001  (a property that is not available yet)
+                    out[name] = "unavailable:" + type(e).__name__
+    for name, v in getattr(obj, "__dict__", {}).items():
+        if not name.startswith("_") and name not in out:
+            out[name] = v
+    out["__class__"] = type(obj)
+    return out
+
+
 def mode_settings(mode):
     """the settings of the running-mode object the user passed (Observation / Calibration): its readout, its parameter
     declarations (and table), its outputs settings, its own options — not internal caches"""
-    out = {"readout": getattr(mode, "readout", None), "outputs": getattr(mode, "outputs", None),
+    out = {"readout": public_props(getattr(mode, "readout", None)), "outputs": public_props(getattr(mode, "outputs", None)),
            "pipeline_seed": getattr(mode, "pipeline_seed", None)}
     pm = getattr(mode, "parameter_mode", None)
     if pm is not None:
@@ -191,7 +261,7 @@ def mode_settings(mode):
     else:  # Calibration
         out["parameters"] = [param_settings(p) for p in getattr(mode, "parameters", [])]
         out["result_input_arguments"] = [param_settings(p) for p in (getattr(mode, "result_input_arguments", None) or [])]
-        out["algorithm"] = {k: v for k, v in vars(mode.algorithm).items()} if hasattr(mode, "algorithm") else None
+        out["algorithm"] = public_props(getattr(mode, "algorithm", None))
         for k in ("num_islands", "num_evolutions", "num_best_decisions", "topology", "pygmo_seed", "result_type",
                   "result_fit_range", "target_fit_range", "weights", "target_data_path"):
             out[k] = getattr(mode, k, None)
@@ -258,7 +328,7 @@ def build(case):
     extra, n = extra_models(case)
     det, pipe = c05.build_objects(case, extra=extra)
     if case["memory_seen"]:
-        det._memory["obsprobes_seen"] = case["memory_seen"]  # noqa: SLF001
+        obsprobes_mod().det_memory(det)["obsprobes_seen"] = case["memory_seen"]
     return det, pipe, n
 
 
@@ -300,22 +370,40 @@ def real_writes(new, case):
     """mutations a run performs through its processor, applied to the real copy; returns the ones the model replays
     (as attribute paths from the copy's root)"""
     ws = []
-    new.detector._memory["obsprobes_seen"] = 99  # noqa: SLF001
-    ch = new.detector.characteristics
-    ch.quantum_efficiency = 0.125
-    if "_quantum_efficiency" in vars(ch):
-        ws.append(["rebind", ["detector", "_characteristics", "_quantum_efficiency"], ["leaf", atomic_text(0.125)]])
-    env = new.detector.environment
-    env.temperature = 111.0
-    if "_temperature" in vars(env):
-        ws.append(["rebind", ["detector", "_environment", "_temperature"], ["leaf", atomic_text(111.0)]])
+    obsprobes_mod().det_memory(new.detector)["obsprobes_seen"] = 99
+
+    def holder(parent, child):
+        """name of the attribute of `parent` that holds the object `child` (whatever it is called)"""
+        return next((k for k, v in vars(parent).items() if v is child), None)
+
+    def set_and_find(obj, public_name, value):
+        """set a public property; returns the name of the (single) attribute of `obj` that changed"""
+        before = dict(vars(obj))
+        setattr(obj, public_name, value)
+        def differs(a, b):
+            try:
+                return a is not b and bool(a != b)
+            except Exception:  # noqa: BLE001  (arrays …)
+                return a is not b
+
+        changed = [k for k, v in vars(obj).items() if k not in before or differs(before[k], v)]
+        return changed[0] if len(changed) == 1 else None
+
+    def replay(chain, leaf_attr, value):
+        names = [holder(a, b) for a, b in chain]
+        if leaf_attr is not None and all(n is not None for n in names):
+            ws.append(["rebind", names + [leaf_attr], ["leaf", atomic_text(value)]])
+
+    det = new.detector
+    ch, env = det.characteristics, det.environment
+    replay([(new, det), (det, ch)], set_and_find(ch, "quantum_efficiency", 0.125), 0.125)
+    replay([(new, det), (det, env)], set_and_find(env, "temperature", 111.0), 111.0)
     if getattr(new, "observation", None) is not None:
         # what `Processor.set("observation.readout.…", value)` does for a swept readout setting
-        new.observation.readout.non_destructive = not new.observation.readout.non_destructive
-        new.observation.readout.times = [7.0, 9.0]
-        if "_non_destructive" in vars(new.observation.readout):
-            ws.append(["rebind", ["observation", "readout", "_non_destructive"],
-                       ["leaf", atomic_text(new.observation.readout.non_destructive)]])
+        ro = new.observation.readout
+        nd = not ro.non_destructive
+        replay([(new, new.observation), (new.observation, ro)], set_and_find(ro, "non_destructive", nd), nd)
+        ro.times = [7.0, 9.0]
     for g in new.pipeline.model_group_names:
         grp = getattr(new.pipeline, g)
         if grp:
@@ -335,11 +423,11 @@ def check_sep(ck, case, batch):
     judges = []
     for name, orig, new in make_copies(case):
         g, a, b, sh = shared_nodes(orig, new)
-        before = snapshot(orig=orig)
+        before = caller_snapshot(orig=orig)
         control = name.startswith("control")
         ws = real_writes(new, case)
-        after = snapshot(orig=orig)
-        leaked = before != after
+        after = caller_snapshot(orig=orig)
+        leaked = bool(changed_objects(before, after))
         idx = len(batch)
         batch.append(heap_request(g, a, b, ws))
 
@@ -445,8 +533,8 @@ def check_runs(ck, case, rng, parallel):
     rc = c05.reconfigure(case, rng)
     rc["fields"] = case["fields"]  # same recorder: the configuration differs, not the pipeline's shape
     det2, pipe2, _ = build(rc)
-    before = snapshot(detector=det, pipeline=pipe)
-    before2 = snapshot(detector=det2, pipeline=pipe2)
+    before = caller_snapshot(detector=det, pipeline=pipe)
+    before2 = caller_snapshot(detector=det2, pipeline=pipe2)
     obs0 = None
     mode_before = None
     # (label, case, objects, reuse the first Observation object?)
@@ -477,10 +565,10 @@ def check_runs(ck, case, rng, parallel):
         ck.case({"case": c, "parallel": parallel, "step": label}, nontrivial="error" not in res and len(res["entries"]) >= 2,
                 stream="runs")
         ck.count(f"runs:{tag}:{label}")
-        after = snapshot(detector=det, pipeline=pipe)
-        after2 = snapshot(detector=det2, pipeline=pipe2)
-        if after != before or after2 != before2:
-            changed = [k for k in before if before[k] != after[k]] + [k + "(2nd configuration)" for k in before2 if before2[k] != after2[k]]
+        after = caller_snapshot(detector=det, pipeline=pipe)
+        after2 = caller_snapshot(detector=det2, pipeline=pipe2)
+        changed = changed_objects(before, after, ck) + [k + "(2nd configuration)" for k in changed_objects(before2, after2, ck)]
+        if changed:
             ck.violation(f"C06:caller-objects-changed:{tag}",
                          f"after run_mode ({label}) the caller's {changed} no longer have the content they had before the call",
                          {"case": c, "parallel": parallel, "step": label, "changed": changed})
@@ -524,7 +612,7 @@ def check_readout_sweep(ck, rng, parallel):
         return ro, obs
 
     ro0, obs0 = make()
-    before = snapshot(user_readout=ro0, **mode_settings(obs0))
+    before = snapshot(user_readout=public_props(ro0), **mode_settings(obs0))
     ro, obs = make()
     det = pyx.make_detector("CCD", 3, 4)
     pipe = pyx.make_pipeline({"photon_collection": [{"name": "p", "func": "obsprobes.stamp", "arguments": {"slot": 0, "a": 1}}]})
@@ -546,7 +634,7 @@ def check_readout_sweep(ck, rng, parallel):
         shutil.rmtree(tmp, ignore_errors=True)
     ck.case({"readout_sweep": case, "parallel": parallel}, nontrivial=True, stream="readout-sweep")
     ck.count(f"readout-sweep:{key.split('.')[-1]}:{'dask' if parallel else 'seq'}:{outcome}")
-    after = snapshot(user_readout=ro, **mode_settings(obs))
+    after = snapshot(user_readout=public_props(ro), **mode_settings(obs))
     if after != before or obs.readout is not ro:
         changed = [k for k in before if before[k] != after.get(k)]
         ck.violation(f"C06:readout-changed-by-sweep:{'dask' if parallel else 'seq'}",
@@ -564,12 +652,12 @@ def check_failing(ck, case, rng, parallel):
     if c3["mode"] == "custom":
         return
     c3["params"].append({"key": c2["fail_key"], "decl": [0, 1], "expect": [0, 1], "enabled": True, "multi": False})
-    before = snapshot(detector=det, pipeline=pipe)
+    before = caller_snapshot(detector=det, pipeline=pipe)
     res, _ = run_observation(c3, det, pipe, n_extra, parallel)
     ck.case({"case": c3, "parallel": parallel, "step": "failing"}, nontrivial=True, stream="failing")
     ck.count("failing:" + ("raised" if "error" in res else "did-not-raise"))
-    after = snapshot(detector=det, pipeline=pipe)
-    if after != before:
+    after = caller_snapshot(detector=det, pipeline=pipe)
+    if changed_objects(before, after, ck):
         ck.violation(f"C06:caller-objects-changed-by-failed-run:{'dask' if parallel else 'seq'}",
                      "a failing observation left the caller's objects modified",
                      {"case": c3, "parallel": parallel, "step": "failing"})
@@ -710,7 +798,7 @@ def check_calibration(ck, rng):
 
         def objects():
             det = pyx.make_detector("CCD", rows, cols)
-            det._memory["obsprobes_seen"] = 2  # noqa: SLF001
+            obsprobes.det_memory(det)["obsprobes_seen"] = 2
             pipe = pyx.make_pipeline({
                 "charge_generation": [{"name": "cal", "func": "obsprobes.level", "arguments": {"level": 1.0, "tilt": 0.0}}],
                 "charge_collection": [{"name": "mem", "func": "obsprobes.memory", "arguments": {"slot": 10}}],
@@ -723,7 +811,7 @@ def check_calibration(ck, rng):
         # (a)+(c): the fitting problem: update_processor copies; fitness is a function of the candidate only
         det, pipe = objects()
         proc = Processor(detector=det, pipeline=pipe)
-        before = snapshot(processor=proc)
+        before = caller_snapshot(processor=proc)
         fit = ModelFittingDataTree(
             processor=proc, variables=pvs(), readout=Readout(), simulation_output="pixel", generations=1, population_size=4,
             fitness_func=FitnessFunction("pyxel.calibration.fitness.sum_of_abs_residuals"), file_path=None,
@@ -737,7 +825,7 @@ def check_calibration(ck, rng):
             ck.violation("C06:calibration:fitness-depends-on-evaluation-order",
                          f"fitness of the same candidates differs with the order of evaluation: {f1} vs {f2}",
                          {"xs": [x.tolist() for x in xs], "f1": f1, "f2": f2})
-        if snapshot(processor=proc) != before:
+        if changed_objects(before, caller_snapshot(processor=proc), ck):
             ck.violation("C06:calibration:fitting-changes-caller-processor",
                          "building the fitting problem / evaluating candidates modified the caller's processor", {})
         new = fit.update_processor(parameter=np.array([3.0, 0.5]), processor=fit.param_processor_list[0])
@@ -774,7 +862,7 @@ def check_calibration(ck, rng):
                          {"calibration": "two-targets-vector-variable", "x": x.tolist()})
         # (b): a whole calibration through run_mode
         det, pipe = objects()
-        before = snapshot(detector=det, pipeline=pipe)
+        before = caller_snapshot(detector=det, pipeline=pipe)
         cal = Calibration(
             target_data_path=[tmp + "/target.npy"], fitness_function=FitnessFunction("pyxel.calibration.fitness.sum_of_abs_residuals"),
             algorithm=Algorithm(type="sade", generations=1, population_size=8), parameters=pvs(), result_type="pixel",
@@ -820,10 +908,10 @@ def check_calibration(ck, rng):
         if cal_after != cal_before:
             ck.violation("C06:mode-object-changed:calibration",
                          f"after a calibration the Calibration object the user passed changed: {[k for k in cal_before if cal_before[k] != cal_after.get(k)]}", {})
-        after = snapshot(detector=det, pipeline=pipe)
-        if after != before:
+        after = caller_snapshot(detector=det, pipeline=pipe)
+        if changed_objects(before, after, ck):
             ck.violation("C06:caller-objects-changed:calibration",
-                         f"after a calibration the caller's {[k for k in before if before[k] != after[k]]} changed", {})
+                         f"after a calibration the caller's {changed_objects(before, after)} changed", {})
     finally:
         os.chdir(cwd)
         shutil.rmtree(tmp, ignore_errors=True)
